@@ -33,7 +33,7 @@ func init() {
 }
 
 func runC06(c *fw.Ctx) {
-	sc := scen.DrawScenario(c, scen.ScenarioOpts{CMPPerMille: cmpRate(c, 8), MinN: 3, MaxN: 5, OnlyMulti: true, AllowXor: false})
+	sc := scen.DrawScenario(c, scen.ScenarioOpts{CMPPerMille: cmpRate(c, 25), MinN: 3, MaxN: 5, OnlyMulti: true, AllowXor: false})
 	parts := sc.Parts
 	cheater := parts[c.S.Draw(len(parts), "cheater")]
 	var honest []party.ID
